@@ -237,16 +237,45 @@ Definition with_accounts (s : state) (st : list account * list ahist) : state :=
 (* ---------- one operation inside its SQL transaction: new tables + payload, or an error ---------- *)
 Inductive outcome := Done (s : state) (p : payload) | Failed (s : state) (e : err) | Panicked.
 
+(* createTransaction once the machine has produced its postings: CommitTransaction, then the accounts upsert.
+   [md] / [amd] are the FINAL metadata (for a postings request: the request's own) *)
+Definition create_tx (f : features) (now : Z) (s : state) (ps : list posting) (ts : option Z) (ref : str) (md : meta)
+           (amd : list (addr * meta)) (force : bool) : outcome :=
+  match ps with
+  | [] => Failed s ENoPostings
+  | _ =>
+    if negb (feasible force (s_vols s) ps) then Failed s EInsufficientFunds
+    else match commit_transaction f now s ps md ts ref with
+         | (s1, None) => Failed s1 EReferenceConflict
+         | (s1, Some t) => Done (upsert_tx_accounts f now s1 t amd) (PNewTx t amd)
+         end
+  end.
+
+(* createTransaction, metadata of a script that calls set_tx_meta / set_account_meta:
+     finalMetadata := result.Metadata; for k, v := range Input.Metadata { if finalMetadata[k] != "" -> ErrMetadataOverride; finalMetadata[k] = v }
+   (a key the script set to the EMPTY string may be overridden), and
+     accountMetadata := result.AccountMetadata; for account, values := range Input.AccountMetadata { for k, v := range values { accountMetadata[account][k] = v } }
+   (the request is merged key by key OVER the script's values, per account) *)
+Definition script_tx_meta (smd md : meta) : option meta :=
+  if existsb (fun kv => match mget smd (fst kv) with Some v => negb (String.eqb v "") | None => false end) md then None
+  else Some (mmerge smd md).
+Definition script_acc_meta (samd amd : list (addr * meta)) : list (addr * meta) :=
+  fold_left (fun acc am => aset String.eqb acc (fst am)
+                             (mmerge (match aget String.eqb acc (fst am) with Some m => m | None => [] end) (snd am))) amd samd.
+
 Definition run_input (f : features) (now : Z) (s : state) (i : input) : outcome :=
   match i with
-  | ICreate ps ts ref md amd force =>
+  | ICreate ps ts ref md amd force => create_tx f now s ps ts ref md amd force
+  | IScript ps ts ref md amd force smd samd =>
+    (* order in createTransaction: machine errors (insufficient funds), then ErrNoPostings, then the override check;
+       an empty postings list is always feasible, so testing it first gives the same answer *)
     match ps with
     | [] => Failed s ENoPostings
     | _ =>
       if negb (feasible force (s_vols s) ps) then Failed s EInsufficientFunds
-      else match commit_transaction f now s ps md ts ref with
-           | (s1, None) => Failed s1 EReferenceConflict
-           | (s1, Some t) => Done (upsert_tx_accounts f now s1 t amd) (PNewTx t amd)
+      else match script_tx_meta smd md with
+           | None => Failed s EMetadataOverride
+           | Some md' => create_tx f now s ps ts ref md' (script_acc_meta samd amd) force
            end
     end
   | IRevert id force at_eff rmeta =>
